@@ -178,8 +178,15 @@ func init() {
 
 func c08direct(x *mc.X, full bool) {
 	l := c08pickLimits(x, full)
+	// the caller's descriptors may have numbers above the open-file limit it configures for the program: the limit
+	// governs the program, not the launcher's own descriptor shuffle
+	high := false
+	if l.OpenFile == 32 {
+		high = x.Bool("caller-descriptors-above-the-open-file-limit")
+	}
 	x.Note("family", "forkexec")
 	x.Note("limits", l.String())
+	x.Note("caller-descriptors-above-the-limit", high)
 	if x.Dry() {
 		return
 	}
@@ -198,8 +205,25 @@ func c08direct(x *mc.X, full bool) {
 		x.Failf("C08/prepare-not-repeatable", "record %+v: a second PrepareRLimit gives %v, the first gave %v", before, again, list)
 	}
 	l = before
-	r := &forkexec.Runner{Args: []string{probe("report"), "--outfile=" + out, "--nofds"}, Env: []string{}, Files: stdioNull(), RLimits: list}
+	files := stdioNull()
+	if high {
+		for i := range files {
+			n := 200 + i
+			if err := unix.Dup3(int(devnull()), n, unix.O_CLOEXEC); err != nil {
+				x.Failf("C08/harness", "dup3 to %d: %v", n, err)
+				return
+			}
+			defer unix.Close(n)
+			files[i] = uintptr(n)
+		}
+	}
+	r := &forkexec.Runner{Args: []string{probe("report"), "--outfile=" + out, "--nofds"}, Env: []string{}, Files: files, RLimits: list}
 	pid, err := r.Start()
+	if err != nil && high {
+		x.Failf("C08/forkexec/launch-refused-by-own-limit", "limits %+v with the caller's descriptors at 200..202: the launch failed: %v (the same record launches with low descriptors)", l, err)
+		x.Outcome("rejected")
+		return
+	}
 	if err != nil {
 		x.Note("launch-error", err.Error())
 		x.Outcome("rejected")
@@ -215,7 +239,7 @@ func c08direct(x *mc.X, full bool) {
 	}
 	d := c08compare(x, "forkexec", l, rep, own)
 	if (l != rlimit.RLimits{}) {
-		x.Distinct("d" + l.String() + d)
+		x.Distinct("d" + l.String() + fmt.Sprint(high) + d)
 	}
 	x.Outcome("forkexec:" + d)
 }
@@ -397,7 +421,9 @@ func c08verdicts(x *mc.X) {
 	}
 	switch what {
 	case "time-bound", "rlimit-cpu":
-		min := 250 * time.Millisecond
+		// the verdict comes with the measurement that justifies it: more than the bound (the run may be ended as soon as the
+		// bound is passed, so nothing is assumed about how far the program got); the kernel's CPU limit fires at one second
+		min := limit.TimeLimit
 		if what == "rlimit-cpu" {
 			min = 900 * time.Millisecond
 		}
